@@ -27,15 +27,23 @@ class C11(ChanSpec):
         lines += [l for l in so.split("\n") if l]
         if rc != 0:
             lines.append("C11 crash harness-exit-%d" % rc)
+        # served channels (activation, read loop): a write issued after a Close call returned - also from inside the active
+        # handler, i.e. while the channel is still being activated - must fail
+        rc, so, se = core.run([os.path.join(core.BIN, "nvhc"), "-prop", "C05L", "-seed", str(seed + 9), "-count", str(60 if tier == "quick" else 600), "-scheds", "6"],
+                              timeout=self.harness_timeout[tier])
+        lines += [l for l in so.split("\n") if l]
+        if rc != 0:
+            lines.append("C05L crash harness-exit-%d" % rc)
         return lines
 
     def nontrivial(self, line, answer):
         t = line.split()
-        return t[1] in ("end", "rf")
+        return t[1] in ("end", "rf", "pw")
 
     def extra_coverage(self, pairs):
-        cov = super().extra_coverage([(l, a) for l, a in pairs if l.split()[1] != "rf"])
+        cov = super().extra_coverage([(l, a) for l, a in pairs if l.split()[1] not in ("rf", "pw") and not l.startswith("C05L ")])
         cov["readfrom_cases"] = sum(1 for l, a in pairs if l.split()[1] == "rf")
+        cov["served_channel_executions"] = sum(1 for l, a in pairs if l.startswith("C05L end"))
         return cov
 
 
